@@ -174,8 +174,8 @@ def main(argv=None):
     cov.update(m["state_evidence"])
     ex = [w.name for w in prop.workloads if w.exhaustive]
     if ex:
-        cov["exhaustive_workloads"] = {name: bool(m["exhaustive_done"].get(name, False)) for name in ex}
-        cov["exhaustive"] = all(cov["exhaustive_workloads"].values()) and len(ex) == len(prop.workloads)
+        cov["exhaustive_workloads"] = {name: bool(m["exhaustive_done"][name]) for name in ex if name in m["exhaustive_done"]}
+        cov["exhaustive"] = bool(cov["exhaustive_workloads"]) and all(cov["exhaustive_workloads"].values()) and len(ex) == len(prop.workloads)
     if prop.finish:
         try:
             prop.finish(cov, m, args.tier)
